@@ -583,6 +583,14 @@ class PipeOps(FullOps):
     def tensor_store(self, tv, idx, v, st, aug):
         if is_opaque(tv):
             self.pev("inplace", st, alias=tv.alias, target="subscript", target_note=tv.note, target_origin=sorted(tv.origin))
+            it = tv_of(idx[1]) if idx and idx[0] == "index" else None
+            vt = tv_of(v)
+            enum_ = next((l[1] for l in (it.layout if isinstance(it, TV) else ()) if l[0] == "enum"), None)
+            if not aug and tv.note in ("zeros", "empty") and tv.axes and tv.axes[0] == "R" and enum_ is not None and isinstance(vt, TV):
+                # buf = zeros((n,) + shape); for i, x in enumerate(xs): buf[i] = f(x)  —  row i of buf is f(xs[i]): torch.stack over xs, rows never written staying zero
+                self.pev("pack", st, fn="stack", dim=0, order=repr(enum_), elem=repr(vt), in_loop=bool(self.loop_orders), scatter=True)
+                lay = ((0, enum_, "stack"),) + tuple((l[0] + 1, l[1], l[2]) for l in vt.layout)
+                return tv.but(layout=lay, origin=tv.origin | vt.origin, alias=False)
             return tv
         return super().tensor_store(tv, idx, v, st, aug)
 
@@ -592,7 +600,17 @@ class PipeOps(FullOps):
             return super().tensor_method(t, name, args, kwargs, node, env)
         if name == "clone":
             return t.but(alias=False, note="clone" if t.note not in ("optional",) else t.note)
-        if name in ("detach", "contiguous", "cpu", "to"):
+        if name in ("to", "type", "float", "double", "half", "bfloat16"):
+            # a dtype conversion of a pipeline tensor (gradients, Jacobians, the aggregated vector)
+            cand = [a for a in list(args) + [kwargs.get("dtype")] if isinstance(a, MetaV) and a.what == "dtype"]
+            tag = cand[0].tag if cand else ({"float": "Fixed:float32", "double": "Fixed:float64", "half": "Fixed:float16", "bfloat16": "Fixed:bfloat16"}.get(name))
+            if tag is not None and tag != t.dtype:
+                self.pev("dtype_cast", node, frm=t.dtype, to=tag, origin=sorted(t.origin))
+                return t.but(dtype=tag)
+            if name != "to" and tag is None:
+                return super().tensor_method(t, name, args, kwargs, node, env)
+            return t
+        if name in ("detach", "contiguous", "cpu"):
             return t
         if name in ("reshape", "view"):
             shape = list(args[0].items) if len(args) == 1 and isinstance(args[0], ListV) and args[0].items is not None else list(args)
@@ -801,17 +819,32 @@ class PipeOps(FullOps):
                     self.pev("grad_write", node, aug=True, target=sorted(tx.origin), target_note="key", value=repr(y_), value_dtype=ty.dtype if ty is not None else None, target_dtype=tx.dtype,
                              fresh=True, value_origin=sorted(ty.origin) if ty is not None else None, value_is_none=False, maybe_copy=tx.note == "grad-field-maybe-copy")
             return NONE
+        if lib == "torch." and fn == "get_default_dtype" and not args:
+            return MetaV("dtype", "Default")
         if lib == "torch." and fn == "is_tensor" and len(args) == 1:
             # torch.is_tensor(x) is isinstance(x, torch.Tensor)
             return self.call_builtin("isinstance", [args[0], ExtV("torch.Tensor")], {}, node, env)
         if fn == "vmap":
-            self.pev("vmap", node, kwargs={k: repr(v) for k, v in kwargs.items()})
+            cs_ = kwargs.get("chunk_size")
+            ct_ = tv_of(cs_) if cs_ is not None and not (isinstance(cs_, Const) and cs_.v is None) else None
+            syms_ = sorted(self.symbols_in(ct_)) if ct_ is not None else []
+            caps_ = []
+            if ct_ is not None and ct_.poly is not None:
+                for sy in ct_.poly.symbols():
+                    d_ = self.sym_defs.get(str(sy))
+                    if d_ and d_[0] == "min":
+                        caps_ += [int(pl.const_value()) for pl in d_[1:] if isinstance(pl, Poly) and pl.const_value() is not None]
+            self.pev("vmap", node, kwargs={k: repr(v) for k, v in kwargs.items()}, chunk_given=ct_ is not None, chunk_const=self.const_int(cs_) if ct_ is not None else None,
+                     chunk_syms=syms_, chunk_caps=caps_, chunk_is_dim=bool(ct_ is not None and ct_.note == "dim" and ct_.poly is not None and len(ct_.poly.symbols()) == 1))
             return VmapV(args[0])
         dk_ = kwargs.get("dtype")
         if not any(is_opaque(x) for x in flat) and fn in ("zeros", "ones", "empty", "full") and isinstance(dk_, MetaV) and isinstance(dk_.tag, str) and dk_.tag.startswith("dt:"):
             # torch.empty(x.shape, dtype=x.dtype, device=x.device): a fresh tensor with the dtype of a pipeline tensor
             self.pev("create", node, fn=fn, like=None)
-            return opaque(frozenset(), note=fn, axes=(Q,), dtype=dk_.tag)
+            shp_ = args[0] if args else kwargs.get("size")
+            lead_ = isinstance(shp_, ListV) and shp_.order is not None and shp_.order[0] and shp_.order[0][0] == "concat-shape" and len(shp_.order[0]) >= 3
+            # zeros((n,) + key.shape): one leading axis in front of a key's shape — a buffer of n rows
+            return opaque(frozenset(), note=fn, axes=("R", Q) if lead_ else (Q,), dtype=dk_.tag)
         if not any(is_opaque(x) for x in flat):
             return super().call_lib(lib, fn, args, kwargs, node, env)
         a0 = args[0] if args else None
@@ -887,7 +920,7 @@ class PipeOps(FullOps):
         return opaque(org, axes=axes, layout=lay, dtype=e.dtype if isinstance(e, TV) else "M")
 
     def autograd(self, fn, args, kwargs, node, env):
-        names = ["outputs", "inputs", "grad_outputs", "retain_graph", "create_graph", "only_inputs", "allow_unused"]
+        names = ["outputs", "inputs", "grad_outputs", "retain_graph", "create_graph", "only_inputs", "allow_unused", "is_grads_batched", "materialize_grads"]
         if fn == "backward":
             names = ["tensors", "grad_tensors", "retain_graph", "create_graph", "grad_variables", "inputs"]
         vals = dict(zip(names, args))
@@ -907,7 +940,8 @@ class PipeOps(FullOps):
                  create_graph=repr(vals.get("create_graph")), create_graph_origin=sorted(vals["create_graph"].origin) if isinstance(vals.get("create_graph"), TV) else None,
                  allow_unused=vals.get("allow_unused").v if isinstance(vals.get("allow_unused"), Const) else repr(vals.get("allow_unused")),
                  materialize_grads=vals.get("materialize_grads").v if isinstance(vals.get("materialize_grads"), Const) else None,
-                 vmapped=getattr(self, "in_vmap", 0) > 0, loop_depth=len(self.loop_orders),
+                 vmapped=getattr(self, "in_vmap", 0) > 0 or not (vals.get("is_grads_batched") is None or (isinstance(vals.get("is_grads_batched"), Const) and not vals["is_grads_batched"].v)),
+                 grads_batched=repr(vals.get("is_grads_batched")) if vals.get("is_grads_batched") is not None else None, loop_depth=len(self.loop_orders),
                  rowspan=self._go_span(vals.get("grad_outputs", vals.get("grad_tensors"))) if self.inst is not None else None)
         if fn == "backward":
             return NONE
@@ -990,7 +1024,8 @@ class PipeOps(FullOps):
             strict = isinstance(kwargs.get("strict"), Const) and kwargs["strict"].v is True
             args = [a if isinstance(a, tuple) else self.consume(a, node, full=strict) for a in args]
             lists = [self.to_list(a, "list", node) for a in args if not isinstance(a, tuple)]
-            self.pev("zip", node, orders=[(repr(l.order) if l.items is None or l.order is not None else "(('literal-sequence',), 'same')") if isinstance(l, ListV) else "?" for l in lists],
+            all_concrete = bool(lists) and all(isinstance(l, ListV) and l.items is not None for l in lists)  # known elements, paired position by position
+            self.pev("zip", node, orders=[(repr(l.order) if (l.items is None or l.order is not None) and not all_concrete else "(('literal-sequence',), 'same')") if isinstance(l, ListV) else "?" for l in lists],
                      in_loop=bool(self.loop_orders))
         return super().call_builtin(fn, args, kwargs, node, env)
 
